@@ -575,7 +575,7 @@ func (m *Machine) concretize(t *Term) uint64 {
 		}
 		model := map[string]uint64{}
 		m.stats.BranchQ++
-		r := m.solver.Check(m.pc, extra, m.tt.Vars, model)
+		r := m.solver.Check(m.pc, extra, m.tt.PathVars, model)
 		if r != Sat {
 			if r == Unknown {
 				m.stats.Unknown++
@@ -603,7 +603,7 @@ func (m *Machine) concretize(t *Term) uint64 {
 	}
 	model := map[string]uint64{}
 	m.stats.BranchQ++
-	r := m.solver.Check(m.pc, nil, m.tt.Vars, model)
+	r := m.solver.Check(m.pc, nil, m.tt.PathVars, model)
 	if r != Sat {
 		if r == Unknown {
 			m.stats.Unknown++
@@ -669,6 +669,7 @@ func (m *Machine) resetPath() {
 	m.steps = 0
 	m.depth = 0
 	m.nondetN = map[string]int{}
+	m.tt.NewPath()
 	m.choices = m.choices[:0]
 	m.curFrame = nil
 	m.timeBase = nil
@@ -759,7 +760,7 @@ func (m *Machine) checkViolation(bad *Term, kind, label, detail string) (anyViol
 	query := func(extra *Term, knownID string) bool {
 		model := map[string]uint64{}
 		m.stats.AssertQ++
-		r := m.solver.Check(m.pc, []*Term{bad, extra}, m.tt.Vars, model)
+		r := m.solver.Check(m.pc, []*Term{bad, extra}, m.tt.PathVars, model)
 		switch r {
 		case Sat:
 			ch := append([]int(nil), m.choices...)
